@@ -46,6 +46,29 @@ type Case struct {
 	CacheCap int64 `json:"cacheCap,omitempty"`
 	// FailCommit lists writer batches whose storage commit is made to fail after the batch body succeeded
 	FailCommit []int `json:"failCommit,omitempty"`
+	// Rename: the case runs with these index property names instead of the generators' fixed ones (names
+	// that are unusual as components of bucket and cache names)
+	Rename gen.Rename `json:"rename,omitempty"`
+}
+
+// renamed returns the case as it runs: with the property names of c.Rename.
+func (c Case) renamed() Case {
+	if len(c.Rename) == 0 {
+		return c
+	}
+	r := c.Rename
+	c.Schema = r.Schema(c.Schema)
+	c.Prefix = r.Steps(c.Prefix)
+	c.Writer = r.Steps(c.Writer)
+	searchers := make([][]models.Query, len(c.Searchers))
+	for i, qs := range c.Searchers {
+		for _, q := range qs {
+			searchers[i] = append(searchers[i], r.Query(q))
+		}
+	}
+	c.Searchers = searchers
+	c.Rename = nil
+	return c
 }
 
 func genCase(t *rapid.T) Case {
@@ -94,6 +117,9 @@ func genCase(t *rapid.T) Case {
 	n := rapid.IntRange(0, 40).Draw(t, "nsched")
 	for i := 0; i < n; i++ {
 		c.Schedule = append(c.Schedule, rapid.IntRange(0, nsearchers).Draw(t, fmt.Sprintf("s%d", i)))
+	}
+	if rapid.IntRange(0, 3).Draw(t, "rename") == 0 {
+		c.Rename = gen.GenRename(t, schema)
 	}
 	return c
 }
@@ -224,6 +250,10 @@ func applyToShard(s *drive.Shard, st gen.Step) ([]uuid.UUID, error) {
 
 func execCase(c Case) (res vt.Result) {
 	rec := vt.R()
+	if len(c.Rename) > 0 {
+		rec.Count("cases_with_renamed_properties", 1)
+		c = c.renamed()
+	}
 	dir, cleanup := drive.CaseDir()
 	defer cleanup()
 	path := filepath.Join(dir, "sharddb.bbolt")
